@@ -231,10 +231,19 @@ def judge_case(make_matching_sequence, Impossible, required, texts, trees, depth
         result = R.guarded_call(LIBRARY_CPU_LIMIT, make_matching_sequence, list(required), *texts, **kwargs)
     except Impossible:
         raised = True
+    except (R.OracleDisagreement, KeyboardInterrupt):
+        raise
     except R.ReTimeout:
         # hang protection only, never a verdict (CPU time is not part of the property and the machine may be
         # oversubscribed): the case is counted and dropped
         return ["skipped:library_call_cut_off_after_cpu_limit"], False, None
+
+    except Exception as e:
+        # anything else the library raises for a well-formed call is a failure of the property (no result, no
+        # ImpossibleSequenceError); with the recursion limit raised (see run_shard) a RecursionError means runaway recursion
+        col.fail(col.crash_bucket(e), data, "make_matching_sequence(%r, %r, depth_limit=%r) raised %s: %s" % (
+            list(required), list(texts), depth_limit, type(e).__name__, str(e)[:200]))
+        return labels + ["outcome:VIOLATION"], True, {"result": type(e).__name__, "reference_minimum": best}
 
     nontrivial = (best is not None and best > len(required)) or (len(trees) >= 2 and len(required) >= 1)
     if best is not None:
@@ -488,8 +497,21 @@ def shards(tier):
     return out
 
 
+def deep_recursion():
+    """make_matching_sequence deep-copies its matchers, and copy.deepcopy recurses along the NFA's node chain: a pattern
+    with a few dozen nested operators needs more than the interpreter's default 1000 frames (how many are left depends
+    on the caller's stack, so at the default the outcome even varies between two runs of the same case). The limit on
+    pattern size is not part of the property, so the checks run with a high limit; a RecursionError that still occurs
+    is runaway recursion and is reported."""
+    import sys
+
+    sys.setrecursionlimit(max(sys.getrecursionlimit(), 20000))
+
+
 def run_shard(spec, ctx):
     from vc2_conformance.symbol_re import make_matching_sequence, ImpossibleSequenceError
+
+    deep_recursion()
 
     col = ctx.col
     kind, k, n = spec
@@ -556,6 +578,8 @@ def run_shard(spec, ctx):
 
 def replay(data, col):
     from vc2_conformance.symbol_re import make_matching_sequence, ImpossibleSequenceError
+
+    deep_recursion()
 
     texts = list(data["patterns"])
     if data.get("asts"):
